@@ -266,6 +266,11 @@ class ExecHooks(TypeTreeHooks):
                 return True
             if n == 'get_anon_type' and isinstance(recv, Obj) and '_t' in recv.fields:
                 return recv.fields['_t'].anon()
+            if n == 'get_anon_type' and recv is not None and self.is_type_cls(recv):
+                # the bare registered class (NatType, IntType ...): its anonymous type is the type itself
+                tc = self.to_tcls(recv)
+                if isinstance(tc, TCls):
+                    return tc.anon()
             if self.opaque_types and fi.module.name.startswith(T) and fi.cls is not None and not self.inline(it, fi):
                 return self.opaque_result(it, fi, recv, args, kwargs)
         if self.is_instr_cls(callee):
